@@ -97,15 +97,22 @@ def specView (st : DS) : View (F × Bool) :=
 
 /-! ## protocol -/
 
+def parseCfg? (k dt delay q tau taur mode tol co so ip : String) : Option (Cfg F) := do
+  some { kind := ← parseKind? k, dt := ← pReal dt, delay := ← pReal delay, Q := ← pReal q,
+         tau := ← pReal tau, tauR := ← pReal taur, mode := ← parseMode? mode, tol := ← pReal tol,
+         curOver := ← pOptReal co, spkOver := ← pOptBool so, inplace := ← pBool ip }
+
 def dstep (st : DS) (line : String) : DS × String :=
   match splitNonEmpty line " " with
   | ["begin", k, dt, delay, q, tau, taur, mode, tol, co, so, ip, hd, ck, d1, d2, d3] =>
     let r : Option DS := do
-      let cfg : Cfg F := { kind := ← parseKind? k, dt := ← pReal dt, delay := ← pReal delay, Q := ← pReal q,
-             tau := ← pReal tau, tauR := ← pReal taur, mode := ← parseMode? mode, tol := ← pReal tol,
-             curOver := ← pOptReal co, spkOver := ← pOptBool so, inplace := ← pBool ip }
+      let cfg ← parseCfg? k dt delay q tau taur mode tol co so ip
       let ck ← match ck with | "dense" => some CK.dense | "direct" => some CK.direct | "conv" => some CK.conv | _ => none
-      let st : DS := { net := ⟨cfg, ← pBool hd⟩, ck := ck, d1 := ← parseNat? d1, d2 := ← parseNat? d2, d3 := ← parseNat? d3 }
+      let hd ← pBool hd
+      let n1 ← parseNat? d1
+      let n2 ← parseNat? d2
+      let n3 ← parseNat? d3
+      let st : DS := { net := ⟨cfg, hd⟩, ck := ck, d1 := n1, d2 := n2, d3 := n3 }
       let E := nelem st
       some { st with m := some (List.replicate E (init floatSOps cfg)), s := List.replicate E {},
                      cur := List.replicate E 0.0, scur := List.replicate E 0.0 }
